@@ -716,6 +716,9 @@ class Context(object):
         newcontext = ContextItem()
         newcontext.categories = self.categories
         newcontext.obj = obj
+        # Remember the currently labelable object so that it can be restored
+        # when an environment ends (LaTeX sets \@currentlabel locally)
+        newcontext.currentlabel = getattr(self, 'currentlabel', None)
 
         if obj is not None:
 
@@ -763,9 +766,9 @@ class Context(object):
             # Pop until we hit a None in the context
             while len(self.contexts) > 1:
                 if self.contexts[-1].obj is None:
-                    self.contexts.pop()
+                    self._popContext()
                     break
-                self.contexts.pop()
+                self._popContext()
         else:
             while len(self.contexts) > 1:
                 o = self.contexts[-1].obj
@@ -774,22 +777,38 @@ class Context(object):
                     pass
                 # Found context pushed by ourself
                 elif o is obj:
-                    self.contexts.pop()
+                    self._popContext()
                     break
                 # Don't pop parent node
                 elif o is obj.parentNode:
                     break
                 # Found the \begin to our \end
                 elif type(obj) == type(o) and obj.macroMode == obj.MODE_END:
-                    self.contexts.pop()
+                    self._popContext()
                     break
                 # Found the \foo to our \endfoo
                 elif obj.nodeName == ('end%s' % o.nodeName):
-                    self.contexts.pop()
+                    self._popContext()
                     break
-                self.contexts.pop()
+                self._popContext()
 
         self.mapMethods()
+
+    def _popContext(self):
+        """
+        Remove the top context and restore the current labelable object
+
+        Environments are groups in LaTeX: a counter stepped inside them is
+        no longer the target of \\label once they have ended.  Contexts
+        pushed by plain commands (\\section, \\item, \\caption, ...), by
+        argument parsing and by array cells leave the current label alone.
+
+        """
+        item = self.contexts.pop()
+        obj = item.obj
+        if obj is not None and obj.macroMode == obj.MODE_BEGIN:
+            self.currentlabel = getattr(item, 'currentlabel', None)
+        return item
 
     def addGlobal(self, key, value):
         """
